@@ -254,6 +254,18 @@ def _closure(chk: Check, rel, qual):
                     fm = chk.prog.find_method(ctx.ci, n.func.attr)
                     if fm is not None:
                         callee = f"{fm[0].key}.{n.func.attr}"
+            elif isinstance(n, ast.Subscript) and isinstance(n.ctx, ast.Load):
+                # obj[key] may run a __getitem__ of the package; whatever survives inlining shows up as a call inside the term
+                try:
+                    t = R.expr(ctx, n)
+                except Exception:
+                    t = None
+                if t is not None:
+                    for x in S.walk(t):
+                        if isinstance(x, tuple) and x and x[0] == "call" and "::" in str(x[1]) and not str(x[1]).startswith(("ext:", "new:")):
+                            if x[1] not in seen:
+                                seen.add(x[1])
+                                stack.append(x[1])
             elif isinstance(n, ast.Attribute) and isinstance(n.value, ast.Name) and ctx.ci is not None and ctx.cfg.params and n.value.id == ctx.cfg.params[0]:
                 # property access
                 for c in chk.prog.mro(ctx.ci):
